@@ -10,8 +10,7 @@
    included), ending normally or with a file wrapper over any content / position / block size / with or
    without descriptor - unbounded lists everywhere. *)
 From Coq Require Import List NArith ZArith Bool.
-From GV Require Import Base.Enc Base.Dec Model.RespStr Gen.GenResponse Model.Response Spec.RespSpec Spec.RespWB
-  Proof.RespStrProofs Proof.RespTables Proof.ResponseHead Proof.ResponseFraming.
+From GV Require Import Base.Enc Base.Dec Model.RespStr Gen.GenResponse Model.Response Spec.RespSpec Spec.RespWB Proof.RespStrProofs Proof.RespTables Proof.ResponseHead Proof.ResponseFraming.
 Import ListNotations.
 Local Open Scope N_scope.
 
